@@ -128,75 +128,91 @@ func cmdCheck(args []string) int {
 		fmt.Fprintf(os.Stderr, "no harnesses for %s (%v)\n", *id, err)
 		return 2
 	}
-	overlay, realOf, err := buildOverlay(*repo, harnessDir, rels)
-	if err != nil {
-		fmt.Fprintln(os.Stderr, "overlay:", err)
-		return 2
+	// harness directories with a variant suffix ("dir@variant") carry
+	// reduced-parameter patches and are loaded as separate programs
+	groups := [][]string{}
+	var plain []string
+	for _, r := range rels {
+		if strings.Contains(r, "@") {
+			groups = append(groups, []string{r})
+		} else {
+			plain = append(plain, r)
+		}
 	}
-	ld, err := loadProgram(*repo, overlay, realOf, rels)
-	if err != nil {
-		fmt.Fprintln(os.Stderr, "INTERNAL-ERROR load:", err)
-		return 2
+	if len(plain) > 0 {
+		groups = append([][]string{plain}, groups...)
 	}
-	fmt.Printf("loaded %d packages in %.1fs\n", len(ld.pkgs), ld.loadTime.Seconds())
-
 	var onlyRe *regexp.Regexp
 	if *only != "" {
 		onlyRe = regexp.MustCompile(*only)
 	}
-	var ws []*worker
-	for i := 0; i < cfg.workers; i++ {
-		w, err := newWorker(i, ld.prog, cfg)
-		if err != nil {
-			fmt.Fprintln(os.Stderr, "INTERNAL-ERROR solver:", err)
-			return 2
-		}
-		ws = append(ws, w)
-	}
+	rep := &report{ID: *id, Tier: *tier, Seed: cfg.seed, start: t0, verif: *verif, repo: *repo, cfg: cfg, names: names}
 	defer func() {
-		for _, w := range ws {
-			w.in.solver.Close()
+		if patchTmp != "" {
+			os.RemoveAll(patchTmp)
 		}
 	}()
-
-	rep := &report{ID: *id, Tier: *tier, Seed: cfg.seed, start: t0, verif: *verif, repo: *repo, ld: ld, cfg: cfg, names: names}
-	for _, rel := range rels {
-		p := ld.pkgs[pkgPathOf(rel)]
-		if p == nil {
-			fmt.Fprintf(os.Stderr, "INTERNAL-ERROR package %s not loaded\n", pkgPathOf(rel))
+	for _, grels := range groups {
+		overlay, realOf, err := buildOverlay(*repo, harnessDir, grels)
+		if err != nil {
+			fmt.Fprintln(os.Stderr, "INTERNAL-ERROR overlay:", err)
 			return 2
 		}
-		for _, fn := range harnessFuncs(p, *id) {
-			if onlyRe != nil && !onlyRe.MatchString(fn.Name()) {
-				continue
+		ld, err := loadProgram(*repo, overlay, realOf, grels)
+		if err != nil {
+			fmt.Fprintln(os.Stderr, "INTERNAL-ERROR load:", err)
+			return 2
+		}
+		fmt.Printf("loaded %d packages in %.1fs %v\n", len(ld.pkgs), ld.loadTime.Seconds(), grels)
+		rep.ld = ld
+		rep.loadS += ld.loadTime.Seconds()
+		var ws []*worker
+		for i := 0; i < cfg.workers; i++ {
+			w, err := newWorker(i, ld.prog, cfg)
+			if err != nil {
+				fmt.Fprintln(os.Stderr, "INTERNAL-ERROR solver:", err)
+				return 2
 			}
-			j := newJob(fn.Name(), fn, cfg)
-			j.rel = rel
-			th := time.Now()
-			runJob(j, ws, cfg)
-			j.wall = time.Since(th)
-			rep.jobs = append(rep.jobs, j)
-			fmt.Printf("  %-44s paths=%d %v viol=%d notcov=%d  %.1fs\n", fn.Name(), j.paths, j.statusCount, len(j.violations), len(j.notCovered), j.wall.Seconds())
-			if *verbose {
-				fmt.Printf("      infeasible: %v\n", j.infeasibleWhy)
+			ws = append(ws, w)
+		}
+		for _, rel := range grels {
+			p := ld.pkgs[pkgPathOf(rel)]
+			if p == nil {
+				fmt.Fprintf(os.Stderr, "INTERNAL-ERROR package %s not loaded\n", pkgPathOf(rel))
+				return 2
 			}
-			seenMsg := map[string]bool{}
-			for _, v := range j.violations {
-				if k := v.Label + ": " + v.Msg; !seenMsg[k] {
-					seenMsg[k] = true
-					fmt.Printf("      engine counterexample: %s\n", k)
+			for _, fn := range harnessFuncs(p, *id) {
+				if onlyRe != nil && !onlyRe.MatchString(fn.Name()) {
+					continue
 				}
-			}
-			if *verbose || true {
+				j := newJob(fn.Name(), fn, cfg)
+				j.rel = rel
+				j.ld = ld
+				th := time.Now()
+				runJob(j, ws, cfg)
+				j.wall = time.Since(th)
+				rep.jobs = append(rep.jobs, j)
+				fmt.Printf("  %-44s paths=%d %v viol=%d notcov=%d  %.1fs\n", fn.Name(), j.paths, j.statusCount, len(j.violations), len(j.notCovered), j.wall.Seconds())
+				if *verbose {
+					fmt.Printf("      infeasible: %v\n", j.infeasibleWhy)
+				}
+				seenMsg := map[string]bool{}
+				for _, v := range j.violations {
+					if k := v.Label + ": " + v.Msg; !seenMsg[k] {
+						seenMsg[k] = true
+						fmt.Printf("      engine counterexample: %s\n", k)
+					}
+				}
 				for _, k := range sortedKeys(j.notCovered) {
 					fmt.Printf("      not covered: %s (×%d)\n", k, j.notCovered[k])
 				}
 			}
 		}
-	}
-	for _, w := range ws {
-		rep.solver.add(w.in.solver.stats)
-		rep.instrs += w.in.stats.Instrs
+		for _, w := range ws {
+			rep.solver.add(w.in.solver.stats)
+			rep.instrs += w.in.stats.Instrs
+			w.in.solver.Close()
+		}
 	}
 	if cfg.profile {
 		cfg.dumpSites()
@@ -233,6 +249,7 @@ type report struct {
 	jobs   []*job
 	solver SolverStats
 	instrs int64
+	loadS  float64
 }
 
 var _ = json.Marshal
